@@ -712,6 +712,7 @@ func (w *World) helperFacts(hc *ssa.Call, idx int, want string) []Fact {
 
 // importFacts closes a fact list under helperFacts.
 func (w *World) importFacts(facts []Fact) []Fact {
+	facts = w.stdlibFacts(facts)
 	seen := map[string]bool{}
 	for _, f := range facts {
 		seen[w.factStr(f)] = true
